@@ -14,7 +14,8 @@ EXPLANATION = ("Deadlines: the timer callback re-checks the clock and cancels on
                "deadline drops the old timer and re-arms iff the scope is active and not cancelled; fail_at raises TimeoutError outside the "
                "block exactly when the scope caught its own cancellation and the deadline has passed; fail_after/move_on_* compute now+delay "
                "(inf for None) and forward shield; the effective deadline accumulates min() before the cancelled test and is -inf once cancelled."
-               " current_time() and the timer use the same clock (the running loop's).")
+               " current_time() and the timer use the same clock (the running loop's)."
+               " The cancellation classifier and the restart on joining an expired scope (task group child, coroutine run from a worker thread) hold.")
 NOT_DECIDED = "Numeric exactness on a clock, timer resolution, the discrete-event behaviour over whole schedules (needs a virtual clock)."
 
 
